@@ -74,6 +74,230 @@ G = {
  3. `cmd_ints.go` plumbing: output-name templating (%(epname)), which views are generated for which project endpoints, and
     that one failing view does not silently drop the others.
 """),
+ 'C01': dict(cmd='c01', hours=4, goals="""
+ 1. PROCESS-KILLING SITES. The property says compilation "never kills the host process". Besides panics there are
+    `logrus.Fatal*` / `log.Fatal*` / `os.Exit` calls reachable from `parse.Parser.Parse` (e.g. pkg/parse/linter.go recordApp /
+    recordEndpoint call logrus.Fatal when the same location is recorded twice; pkg/importer/writer.go, grammar.go). Add a Gen
+    table (translator over every non-test Go file of the packages on the compile path: pkg/parse, pkg/grammar, pkg/importer,
+    pkg/syslutil, pkg/loader, pkg/pbutil, pkg/mod, pkg/env — compute the path from imports if you can) listing every such
+    site with its enclosing function and the condition guarding it; model the linter's record graph (`graph.recordApp`,
+    `recordEndpoint`, `recordMethod`, `recordAsCall`, keyed by lower-cased app name and "file:line:col" locations) in Coq and
+    prove the Fatal branches unreachable under the invariant the parser really provides (each file of the closure is walked
+    once, so locations are pairwise distinct per (file,line,col)) — and state that invariant as a theorem over the import
+    model (flattenSpecs lists each index once: reuse Imports/). Generator: closures in which one file is reachable under several
+    spellings (`./a.sysl`, `sub/../a.sysl`, `a.sysl`, `a@main`, upper/lower case on the same name, the same app re-opened in
+    many files, app names differing only in case) so that a double walk would show as `died` in the worker.
+ 2. MORE OF THE LISTENER'S ABORT SITES IN THE PREDICTOR. The anchors list listener_impl.go panic/Assert/PanicOnError sites
+    (…:328, 459, 500, 504, 536, 993, 1631, 1649, 1670, 1885, 2645, 2885-3019, utils.go:179-185). `FieldPanics.v` predicts the
+    field-type ones exactly. Extend the exact predictor (model + `<->` theorem + bounded-exhaustive stream) to the others
+    that grammatical input can reach (second `!wrap`, view literals / `ExitLiteral`, `return` payload forms, MustUnescape on a
+    bad %-escape in every name position, enum values, array sizes), so that the correspondence checks "ParseError exactly
+    when the model says Panic-under-recover, model otherwise" rather than only "no crash".
+ 3. Hang side: non-termination is only observed by a deadline. List every hand-written loop / recursion on the compile path
+    (Gen table: `for` without a condition or with a condition not of the form i < n, recursive functions) and give each a
+    termination theorem over a model or name it in the notes as not proved.
+"""),
+ 'C02': dict(cmd='c02', hours=4, goals="""
+ 1. notes/C02.md "Still missing": the GLOBAL equality `listen s = Some (canon s)` / `denote_canon` excludes REST endpoints and
+    subscriptions. Extend `wf_sub`, `canon` and the proofs to REST trees (prefix / attribute stacks in closed form, path
+    variables, query parameters, every HTTP verb) and to subscriptions (they write into the publisher's application; the
+    grouping lemma needs a two-application form). Keep `canon spec = observed` checked on every case where it applies and
+    report the share of cases it now covers.
+ 2. "Not modelled": views / transforms (at least their headers, parameter lists, return types and the expression tree shape
+    that ends up in the protobuf), `!wrap`, collector blocks (`.. * <- *`) and what postProcess makes of them, in-place
+    tuples. Add them to `denote`, the generator, the Intent oracle and the correspondence, construct by construct, check green
+    after each.
+ 3. Multi-file specifications (imports; the same application continued in an imported file) through the same pipeline.
+"""),
+ 'C03': dict(cmd='c03', hours=4, goals="""
+ 1. notes/C03.md "Not covered": that the parser + listener depend only on the default-channel token sequence is sampled only,
+    and layout changes inside view bodies / expressions (lexer modes with predicates on `spaces`, `inSqBrackets`,
+    `blockTextLine`, `noMoreImports`, `startsWithKeyword`) are limited. Model the lexer's hand-written STATE (pkg/grammar/
+    lexer_impl.go: every field of lexerState, every action and predicate in SyslLexer.g4 that reads or writes it — regenerate
+    the action table from the .g4 as now) for ALL modes, not just indentation; prove that the layout transformations of
+    the property (indent width scaling, blank / comment line insertion, trailing spaces, tabs vs spaces where allowed) leave
+    every predicate's value unchanged at every token, hence the token types unchanged; tie by token-level correspondence on
+    the corpus AND on generated specs with views, annotations, multi-line arrays, doc strings, REST, one-of.
+ 2. The two known findings (first line indented; bare `#` at EOF without newline) stay listed; widen the transformation
+    set: CRLF vs LF, form feed, trailing whitespace-only lines at EOF, comments after statements (`# ...` at line end) where
+    the grammar allows them, continuation lines inside `[...]` attribute lists and `(...)` parameter lists.
+ 3. Import-section layout (extractImports is a textual pre-scan: every layout the lexer accepts for an import line must be
+    seen by the pre-scan): model both and prove they agree on all layouts of the import section.
+"""),
+ 'C05': dict(cmd='c05', hours=4, goals="""
+ 1. NAMES. `Index.v` models fileNameToIndex / cleanImportFilename on strings; the listener's construction of the imported
+    file's NAME (pkg/parse/listener_impl.go EnterImport_stmt: relative to the importing file's directory, rooted `/x`, remote
+    `//host/org/repo/path@version`, relative imports INSIDE a remote file resolved with path.Join against its base, the
+    `@version` / `~` app-name suffix handling, default branches main/master/develop in the different-version check) is not.
+    Transliterate it over byte strings, prove: two spellings that name the same file (after path.Clean-style normalisation)
+    get the same index, hence are claimed once (extend closure_unlimited to spellings), and distinct files get distinct
+    indices (dot-files vs plain, `../x` vs `x`, `.shared/t` vs `shared/t`). Drive the real Parse through a reader that records
+    every name it is asked for (no network: a map-backed reader answering `//host/...` names works, see how
+    pkg/parse tests fake remote files) and compare names, claims and the final file list with the model.
+ 2. notes/C05.md "Not covered": the different-version / different-app-name error paths, and racing claims in lock-step.
+ 3. The depth-limit finding stays known; state precisely (theorem) for which graphs the result IS schedule-independent under a
+    depth limit (e.g. all paths to every file have equal length) so the known-finding key can be narrowed further.
+"""),
+ 'C06': dict(cmd='c06', hours=4, goals="""
+ 1. FOREIGN FORMATS IN THE CLOSURE. notes/C06.md "Not covered": OpenAPI 3 / protobuf / `.pb` / `.pb.json` / `.textpb` imports and
+    ambiguous format detection. Extend the fault model and the generator: for EVERY input kind the import statement accepts
+    (pkg/parse/parse.go parseSpecs + pkg/importer/formats.go GuessFileType + pkg/pbutil/input.go), a fault of every class
+    (unreadable, empty, truncated at any byte, wrong content for the extension, two format signatures at once, undecodable
+    payload, decodable but invalid) at every position of the closure must make the whole compile fail with a non-zero status
+    and no model; model `GuessFileType` (extension + signature matching, the ambiguity message) and `FromPBByteContents`
+    dispatch in Coq with `fault_fails_clean` extended; Gen table of the accepted suffixes and the error propagation in each
+    arm (an arm whose error is dropped or shadowed must break an obligation).
+ 2. Several failing files at once (which error wins is free, THAT one wins is not), failures during the concurrent stage-1
+    conversions, and failures in files imported only by a file that itself fails.
+ 3. CLI level: `sysl pb`, `sysl validate`, `sysl import` exit statuses for the same faults through the real binary.
+"""),
+ 'C07': dict(cmd='c07', hours=4, goals="""
+ 1. notes/C07.md "Not covered": `parse.Parser` values shared between goroutines, non-mixin parts of postProcess, import
+    fetching under concurrency. Extend ConcShape (Gen) to EVERY package-level variable and every struct field of
+    `parse.Parser` / `TreeShapeListener` that is written after construction and reachable from two compilations (classify:
+    immutable after init / guarded by a mutex / per-compilation / SHARED-MUTABLE), model the shared ones as the keyed map is
+    modelled, and prove non-interference for them or refute it with a schedule that the harness then replays on the real
+    code (a genuine finding). Add streams: one `parse.Parser` used by k goroutines; compilations that share an import
+    (same reader, same files) racing on the retrieved-file table; LSP-style repeated compile of changing text.
+ 2. Determinism half of the property: the same inputs compiled under every schedule give byte-identical models —
+    postProcess order, map-ordered loops on the compile path (reuse C19's MapRanges translator on pkg/parse), collector
+    application order. Theorem over the post-processing model for all application orders (sorted: independent; refuted for
+    map order with the mixin chain) extended to every loop of postProcess that reads another application.
+ 3. Thorough tier: keep the cold-start race batch; add `-race` runs of the new streams.
+"""),
+ 'C08': dict(cmd='c08', hours=4, goals="""
+ 1. notes/C08.md "Not covered": views / expressions, parameter and path/query parameter types, mixins, imports' own context,
+    enum / alias / union, collector / subscribe, doc-string statements, multi-line annotation values, in-place tuples, CRLF.
+    Add element kinds to the walk model, the recording renderer and the oracle in that order, green after each. End
+    positions are proved only >= start: prove them EXACT for the kinds where the code computes them from the stop token
+    (`end_exact`), for all layouts.
+ 2. Multi-file declaration order: the order of contexts of an element declared in several files must follow the order in
+    which the files are parsed (flattenSpecs: depth-first pre-order over imports, each file once); model it (reuse Imports/
+    flatten) and prove `decl_order` for all import graphs incl. cross edges and cycles.
+ 3. Known findings stay listed with their narrow keys; check that each still reproduces and that nothing else hides
+    behind them (e.g. array-of-array annotation values re-declared, annotations on re-opened REST methods).
+"""),
+ 'C09': dict(cmd='c09', hours=4, goals="""
+ 1. notes/C09.md "Not covered": `--split-apps`, stdin `.pb` input, merging a compiled model WITH further Sysl sources,
+    `SYSL_DEV_RENEST_FLATTENED_TYPES`. Add: (a) re-import of a compiled model together with extra `.sysl` sources that
+    re-open its applications (what must hold: the result equals compiling all sources together, up to the listed
+    postProcess findings); (b) every output mode x every input suffix through the real file writers and readers,
+    including `--split-apps` directory output read back application by application; (c) the `renest` step as a model
+    function with `renest (flatten m) = m` on its domain or a refutation.
+ 2. The JSON clean-up regex model: prove `clean` is the identity on every STRING VALUE (not only keys) — i.e. no byte inside
+    any JSON string literal is changed for any model — by a lexical invariant over protojson's output grammar; widen the
+    generator to names / texts containing `": `, escaped quotes, backslashes, newlines, `backslash-u` escapes, non-BMP runes.
+ 3. Text / binary / JSON encoders on maps with 0, 1, many entries and deep statement trees: `decode (encode m) = m` checked on
+    the generator's whole range with proto.Equal AND byte-stable re-encoding (second encode equals first).
+"""),
+ 'C10': dict(cmd='c10', hours=4, goals="""
+ 1. notes/C10.md "Not covered": decimals / floats (model as exact rationals or skip arithmetic but cover comparison and
+    dispatch), templates / string formatting built-ins, whereMap, union of map sets, `single`, `str`, bool negation,
+    map-entry transforms; the parser route covers only the renderable subset. Add operators and value kinds to `Value.v` /
+    `Interp.v` with their dispatch rows regenerated from binexprEval.go / unaryEval.go, extend `eval_total_on_typed`
+    (no "unsupported operation" exit for any well-typed expression over the modelled kinds — every table hole is either
+    proved unreachable for typed input or reported as a finding with the expression as replay), and render them through
+    the real parser.
+ 2. PURITY in full: after `EvaluateView` the caller's scope, the module and every argument value are unchanged
+    (deep comparison in the oracle; theorem `eval_pure` over the model with the two known findings carved out exactly by
+    their keys), for nested transforms, recursive views, and views called with the same arguments twice.
+ 3. A closed-form fuel bound for view recursion and a theorem that evaluation of a non-recursive view terminates for every
+    input (no fuel hypothesis).
+"""),
+ 'C11': dict(cmd='c11', hours=4, goals="""
+ 1. STRUCTURE COMPLETENESS for the importers in Coq is proved for the flat OpenAPI 2 subset. Extend `import_complete` /
+    `import_sound` to: nested inline objects, arrays of arrays, allOf / oneOf / enums, `$ref` chains, path-level +
+    operation-level parameters in every location (incl. the shared-Parameters aliasing shape: two operations of one path
+    without own parameters), request bodies, responses per status incl. default, XSD complex types with extension /
+    restriction, attributes, minOccurs / maxOccurs, and the SQL/Spanner importer if pkg/importer has one that is reachable
+    without the network. Oracle: the imported text compiles and contains every definition, property, parameter, operation
+    and response of the foreign document with the right kind and optionality.
+ 2. NAME ESCAPING proved for all byte strings is done for property names; do the same for type names, parameter names,
+    enum values and path segments on every writer path (Go writer and, by correspondence only, the arr.ai OpenAPI 3 path).
+ 3. Determinism of import (the same document imported twice gives the same text): map-order obligations over pkg/importer
+    (reuse C19's MapRanges translator) + repetition in the harness; the listed nondeterminism finding stays narrow.
+"""),
+ 'C13': dict(cmd='c13', hours=4, goals="""
+ 1. notes/C13.md "Not covered": label / payload / note TEXT, `sd` option handling and output naming, statements with nil
+    `Stmt`. Model the label pipeline (pkg/cmdutils Labeler / format strings with %(epname), %(appname), %(@attr), controls,
+    `~` patterns, the `seqtitle` / `appfmt` / `epfmt` attributes; MergeAttributes) over strings, prove it pure and total
+    (every format string, every attribute map: a label or an error, no panic, attributes of the model never written), tie it
+    by comparing the label texts of the real diagram; add the blackbox / upto options (`--blackbox`, per-endpoint blackboxes
+    from attributes) to the model with the theorem "nothing below a blackbox is drawn, everything above is".
+ 2. The `follows the call tree` half at full strength: arrows = pre-order of the call tree with cycles cut at the first
+    repeated (app, endpoint) pair ON THE CURRENT PATH — check that the model's cut rule is the code's (visited counter
+    semantics) for re-entrancy through different endpoints, and prove the tree theorem without the reachability hypothesis
+    if one remains.
+ 3. Several start endpoints in one diagram (`-s` repeated, project endpoints with several calls): participants declared
+    once overall, per-section activation balance.
+"""),
+ 'C15': dict(cmd='c15', hours=4, goals="""
+ 1. notes/C15.md "Not covered": enum items, cardinality labels, in-place tuples, `%2E` / dots in names, application names with
+    `.`, the `sysl datamodel` CLI wrapping (cmd_datamodel.go: --direct, project mode with %(epname), class format
+    attributes, output naming). Add to model / generator / oracle. The property's completeness half ("every type, field and
+    relationship") must be judged for every type KIND the compiler can produce (tuple, relation, enum, alias of primitive /
+    reference / collection, union, map, one-of) and every field kind (primitive with constraints, reference local /
+    cross-app / nested, set / sequence / list of each).
+ 2. Many known findings hang on reference RESOLUTION (`path[0]` as application, nested names). Write the intended
+    resolution as a Coq function `resolve` (the compiler's own scoping rule: pkg/parse fixTypeRefScope / syslutil), prove
+    the diagram complete and sound RELATIVE to the code's resolution (done) AND characterise exactly when the code's
+    resolution equals `resolve` (theorem `resolution_agrees_iff`), so that the known-finding keys are provably the whole
+    difference.
+ 3. Mermaid data-model view (pkg/mermaid/datamodeldiagram) under the same oracle.
+"""),
+ 'C16': dict(cmd='c16', hours=4, goals="""
+ 1. notes/C16.md "Not covered": dropped tables, multi-app runs, non-table types in the app, uniqueness / type compatibility
+    of referenced columns. Extend the delta model to table removal (DROP order must be reverse dependency order), table
+    addition together with references to it from retained tables, renamed primary keys, several applications in one run
+    (`--app-names a,b`), and prove `delta_sound` (applying the delta script to the old schema yields the new schema, in the
+    interpreter already in the harness lifted into Coq: a small SQL-DDL state machine `apply : schema -> stmt -> option
+    schema`) for all pairs of versions in the modelled class; the four known delta findings stay carved out by their keys.
+ 2. Creation script: `apply_all create_script empty = Some (schema_of model)` as a theorem (completeness + ordering in one
+    statement), for every model incl. cycles (rejected cleanly), self references, composite keys, autoinc.
+ 3. Identifier quoting / reserved words / names needing escapes in generated SQL (Go side oracle at least).
+"""),
+ 'C17': dict(cmd='c17', hours=4, goals="""
+ 1. notes/C17.md "Not covered": payload grammar internals and annotation value conversion (oracle only), `Src.*` relations,
+    `transform/utils.go` assembly and `cmd_transform.go`. Model the return-payload parser (`parseReturnPayload`: status, name,
+    type reference resolution against the statement's application, sequence / set wrappers, attributes) and the annotation
+    value conversion (string / array / nested array / number forms) in Coq, include them in `rows_lossless`
+    (`rebuild (normalize m) = project m` for the widened `project`), and the Src relations (source contexts per row) at
+    least in the correspondence.
+ 2. Every type kind and constraint form in `normalizeType` / `normalizeField` (maps, one-of, no-type, bit width, ranges,
+    precision / scale, several constraints) with `rebuild` extended; views: parameters, return type, the expression as
+    opaque text.
+ 3. `sysl transform` end to end on the same modules (arr.ai side is a black box: oracle only) — the relational model a
+    script sees equals `normalize m`.
+"""),
+ 'C19': dict(cmd='c19', hours=4, goals="""
+ 1. notes/C19.md "NOT covered": `sort.Slice` comparators (ties are judged by the harness only), purity of calls in expression
+    position, non-determinism that does not come from a map range. Add to the MapRanges translator: every `sort.Slice` /
+    `sort.SliceStable` / `sort.Sort` comparator in the generator packages classified as TOTAL-ORDER-ON-KEY (compares a key
+    that is unique in the slice, or breaks ties down to one) vs PARTIAL (ties possible) with the obligation that PARTIAL ones
+    sort an input whose order is itself deterministic (stable + deterministic source) — model `sort.Slice` as "any
+    permutation consistent with the comparator" and prove: total comparator => unique result; partial comparator on
+    map-ordered input => refuted. Generator: models with colliding sort keys for every comparator found.
+ 2. Whole-output determinism theorems exist per generator for the modelled loops; extend the per-generator models to
+    the generators listed as not modelled (templates / codegen / `transform` if runnable offline, protobuf export, Spanner /
+    SQL export), at least with range-classification obligations + the repetition oracle (same module, same process, twice;
+    fresh process, 8 times; GOMAXPROCS varied).
+ 3. State leaks between generator runs in one process (package-level caches, memoisation maps): Gen table of package-level
+    mutable variables in generator packages + harness stream running generators in different orders.
+"""),
+ 'C20': dict(cmd='c20', hours=4, goals="""
+ 1. notes/C20.md "Not covered": `codegen`, `template`, `transform`, `test-rig`, `repl`, `lsp`, options whose value does
+    not compile as a regular expression. Add every remaining CLI command that can run offline to the command outcome model
+    and the subprocess matrix (for each: the guard structure read from the source, fuel for its recursion, and the verdict
+    on untidy but valid models: dangling references, cycles, empty applications, types without fields, endpoints without
+    statements, very deep nesting, very long names, non-ASCII). Every abort site (panic / Fatal / os.Exit outside main /
+    index without bound check / map write on nil / type assertion without ok) in the packages those commands reach goes
+    into the Gen table with `modelled_functions_do_not_panic` extended.
+ 2. Option values: every flag of every command with boundary values (empty, unknown enum value, invalid regex, missing
+    file, directory instead of file, output path in a missing directory, read-only output) must end with an error
+    message and non-zero status, never a panic: subprocess matrix + model of the flag validation.
+ 3. Hang side: every recursion in the reached packages has a termination theorem over the walk model or is named as not
+    proved; CPU-limit based hang verdict stays.
+"""),
 }
 for pid in sys.argv[1:]:
     g = G[pid]
